@@ -49,6 +49,6 @@ if __name__ == '__main__':
     print(f"{n} cases, {len(diffs)} differences")
     for d in diffs[:int(sys.argv[4]) if len(sys.argv) > 4 else 10]:
         c = d['case']
-        print(json.dumps({'id': c['id'], 'op': c['op'], 'note': c.get('note'), 'schema': c['schema'], 'v': c['v']})[:1500])
+        print(json.dumps({'id': c['id'], 'op': c['op'], 'note': c.get('note'), 'schema': c['schema'], 'v': c.get('v'), 'schema2': c.get('schema2')})[:1500])
         print('   go  :', json.dumps(d['go'])[:600])
         print('   lean:', json.dumps(d['lean'])[:600])
